@@ -39,6 +39,9 @@ SafeFewLines(f, n, modes, vals) ==
   LET cand == <<BenVals(f, n)>> \o [j \in 1..4 |-> NastyVals(n, <<Empty, Max63, NulB, LongA>>[j])]
       eff(cv) == [p \in 1..n |-> IF modes[p] = "c" THEN vals[p] ELSE cv[p]]
       ok(cv) == /\ Admissible(f, eff(cv))
+                \* (@for appends the current value every round: a key holding the 70 kB value under an unbounded condition is the
+                \* documented memory warning - ForCases assumes the keys of its lines are short)
+                /\ (f = "@for" => \A p \in 1..n : cv[p] # LongA)
                 /\ \A p \in 1..n : (modes[p] # "c" /\ KindAt(f, p) \in Counting) => cv[p] \in Pool(KindAt(f, p))
   IN [j \in 1..Len(SelectSeq(cand, ok)) |-> Ctx(SelectSeq(cand, ok)[j])]
 
@@ -124,7 +127,9 @@ Seeds == {
   <<"{", "!", " ", "\"", "[0]", " ", "+", " ", "2", "\"", "}">>,
   <<"{", "@reduce", " ", "{", "@split", " ", "{", "0", "}", "}", " ", "{", "sumi", " ", "{", "0", "}", " ", "{", "1", "}", "}", " ", "0", "}">>,
   <<"{", "double", " ", "{", "quad", " ", "{", "0", "}", "}", "}">>,
-  <<"{", "src", "}", ":", "{", "line", "}", " ", "{", ".", "}", "{", "#", "}", "{", ".#", "}", "{", "@", "}">> }
+  <<"{", "src", "}", ":", "{", "line", "}", " ", "{", ".", "}", "{", "#", "}", "{", ".#", "}", "{", "@", "}">>,
+  \* multi-byte letters next to every piece of syntax (the placeholders are replaced by the driver)
+  <<"$$V:txt:m4*40$$", "{", "upper", " ", "$$V:txt:c3*3$$", " ", "\"", "$$V:txt:m4$$", "\"", "}", "\\", "$$V:txt:mix$$", "{", "0", "}", "$$V:txt:e2$$">> }
 MutArities(f) == IF Thorough THEN GoodArities(f) ELSE {MinArgs(f)}
 \* a malformed loop / range / repeat may well be an unbounded one: those see short values only
 MutLines(small) ==
@@ -219,26 +224,92 @@ Long3k == D("long:a*3000", "a", <<>>, 3000)
 LineCore == <<Empty, W("a"), Max63, Min63, W("0"), W("-1"), NulB, BadUtf, Long3k, W("1.5"), W("2023-01-02T03:04:05Z"), W("a:b"), W("%d%s"), W("1e308")>>
 LineTriples == LET t == Sq((1..Len(LineCore)) \X (1..Len(LineCore)) \X (1..Len(LineCore))) IN
                [j \in 1..Len(t) |-> [m |-> <<LineCore[t[j][1]].id, LineCore[t[j][2]].id, LineCore[t[j][3]].id>>, k |-> <<>>]]
-LineSingles == <<[m |-> <<LongLine.id>>, k |-> <<>>], [m |-> <<MixB.id, MixB.id>>, k |-> <<>>], [m |-> <<JsDoc.id>>, k |-> <<>>]>>
+\* ... and lines holding a text with multi-byte characters: as the value that is cut (the last three bytes, all but the first), as the offset
+TextLineSeq == Sq(TextPool \cup TextArrays)
+TextLines == FlattenSeq([j \in 1..Len(TextLineSeq) |->
+                 LET id == TextLineSeq[j].id IN <<[m |-> <<id, "-3", "7">>, k |-> <<>>], [m |-> <<id, "1", Max63.id>>, k |-> <<>>], [m |-> <<"1", id, id>>, k |-> <<>>]>>])
+LineSingles == <<[m |-> <<LongLine.id>>, k |-> <<>>], [m |-> <<MixB.id, MixB.id>>, k |-> <<>>], [m |-> <<JsDoc.id>>, k |-> <<>>]>> \o TextLines
 ScanScn(t, mt) ==
   [id |-> "scan:" \o ToString(t) \o ":" \o ToString(mt), g |-> "scan", f |-> Matchers[mt][1], cls |-> "ok", tpl |-> ScanTemplates[t], raw |-> <<>>,
    via |-> "extract", pat |-> Matchers[mt][2], sep |-> " ", lines |-> <<>>, lineset |-> "triples"]
 LineSet == [id |-> "lineset:triples", g |-> "lineset", name |-> "triples", lines |-> LineTriples \o LineSingles]
 
+\* "ary": argument counts far beyond the ones of the groups above (ExprText BigArities): the plain call with n benign
+\* arguments, all written as constants (folded at Compile) and all read from the line (positions >= 10 read group 9)
+AryLines(f, n) ==
+  LET us == <<Empty, Max63, NulB, TVal(Txt("txt:m4*40", <<"m4">>, 40)), W("abc")>>
+  IN <<Ctx(BenVals(f, IF n < 10 THEN n ELSE 10))>> \o [j \in 1..Len(us) |-> Ctx(NastyVals(IF n < 10 THEN n ELSE 10, us[j]))]
+\* (one token per argument: no recursion over the argument count)
+AryTokens(f, modes, vals) == <<"{", f>> \o [p \in 1..Len(modes) |-> " " \o Cat(ArgTokens(modes[p], vals[p], p - 1))] \o <<"}">>
+AryCls(f, modes, vals) == IF f = "!" THEN "any" ELSE Cls(f, modes, vals)
+AryConst(f, n) ==
+  LET modes == [p \in 1..n |-> "c"] IN
+  Scn("ary:c:" \o f \o ":" \o ToString(n), "ary", f, AryCls(f, modes, BenVals(f, n)), AryTokens(f, modes, BenVals(f, n)), <<Ctx(<<W("abc")>>)>>)
+AryDyn(f, n) ==
+  Scn("ary:d:" \o f \o ":" \o ToString(n), "ary", f, AryCls(f, RestModes(f, n), BenVals(f, n)), AryTokens(f, RestModes(f, n), BenVals(f, n)), AryLines(f, n))
+\* every other argument a constant, the rest through a nested call
+AryMix(f, n) ==
+  LET modes == [p \in 1..n |-> IF RestMode(f, p) = "c" \/ p % 2 = 0 THEN "c" ELSE "n"] IN
+  Scn("ary:m:" \o f \o ":" \o ToString(n), "ary", f, AryCls(f, modes, BenVals(f, n)), AryTokens(f, modes, BenVals(f, n)), AryLines(f, n))
+AryCases(f, n) == {AryConst(f, n), AryDyn(f, n)} \cup (IF f \in Variadic THEN {AryMix(f, n)} ELSE {})
+
+\* "win": the helpers that take an offset / a length / an index, on the texts whose length differs from unit to unit, with the
+\* offsets around the text's length in EVERY unit (ExprText Offsets); ASCII controls of the same sizes alongside
+OffVal(n) == IF n = HUGE THEN Max63 ELSE IF n = -HUGE THEN Min63 ELSE NumVal(n)
+AsciiTexts == {Txt("txt:a*33", <<"a">>, 33), Txt("txt:a*3", <<"a">>, 3)}
+WinTexts == TextPool \cup TextArrays \cup AsciiTexts
+WinTextSeq == Sq(WinTexts)
+WinSubstr(t, how) ==
+  LET os == Sq(Offsets(t) \X Offsets(t))
+      tpl == CASE how = "d" -> <<"{", "substr", " ", "{", "0", "}", " ", "{", "1", "}", " ", "{", "2", "}", "}">>
+               [] how = "k" -> <<"{", "substr", " ", "{", "k0", "}", " ", "{", "k1", "}", " ", "{", "k2", "}", "}">>
+               [] how = "ff" -> <<"{", "sub3", " ", "{", "0", "}", " ", "{", "1", "}", " ", "{", "2", "}", "}">>
+               [] how = "m" -> <<"{", "@map", " ", "{", "0", "}", " ", "{", "substr", " ", "{", "0", "}", " ", "{", "k1", "}", " ", "{", "k2", "}", "}", "}">>
+  IN Scn("win:substr:" \o how \o ":" \o t.id, "win", "substr", "ok", tpl,
+         [j \in 1..Len(os) |-> Ctx(<<TVal(t), OffVal(os[j][1]), OffVal(os[j][2])>>)])
+WinSelect(t) ==
+  LET os == Sq(Offsets(t)) IN
+  Scn("win:select:" \o t.id, "win", "select", "ok", <<"{", "select", " ", "{", "0", "}", " ", "{", "1", "}", "}">>,
+      [j \in 1..Len(os) |-> Ctx(<<TVal(t), OffVal(os[j])>>)])
+\* @slice / @select take constants: one template per window, every text a line
+ArrOffs == {0, 1, -1, 2, -3, HUGE, -HUGE} \cup UNION {Around(Elems(t)) : t \in TextArrays}
+           \cup (IF Thorough THEN UNION {Around(Meas("byte", t)) \cup Around(Meas("rune", t)) : t \in TextArrays} ELSE {})
+WinLinesAll == [j \in 1..Len(WinTextSeq) |-> Ctx(<<TVal(WinTextSeq[j])>>)]
+WinSlice(l, k) ==
+  Scn("win:slice:" \o ToString(l) \o ":" \o ToString(k), "win", "@slice", "ok",
+      <<"{", "@slice", " ", "{", "0", "}", " ", OffVal(l).q, " ", OffVal(k).q, "}">>, WinLinesAll)
+WinASelect(l) ==
+  Scn("win:aselect:" \o ToString(l), "win", "@select", "ok", <<"{", "@select", " ", "{", "0", "}", " ", OffVal(l).q, "}">>, WinLinesAll)
+\* printf widths and precisions count runes
+WinFormat ==
+  LET ps == Sq(FmtPool \X TextVals(TextPool)) IN
+  Scn("win:format", "win", "format", "ok", <<"{", "format", " ", "{", "0", "}", " ", "{", "1", "}", " ", "{", "1", "}", "}">>,
+      [j \in 1..Len(ps) |-> Ctx(<<ps[j][1], ps[j][2]>>)])
+WinSubs == {<<"substr", j>> : j \in 1..Len(WinTextSeq)} \cup {<<"slice", l>> : l \in ArrOffs} \cup {<<"misc", 0>>}
+WinCases(k) ==
+  CASE k[1] = "substr" -> {WinSubstr(WinTextSeq[k[2]], how) : how \in {"d", "k", "ff", "m"}} \cup {WinSelect(WinTextSeq[k[2]])}
+    [] k[1] = "slice"  -> {WinSlice(k[2], kk) : kk \in ArrOffs} \cup {WinASelect(k[2])}
+    [] OTHER -> {WinFormat}
+WinOffVals == {OffVal(n) : n \in UNION {Offsets(t) : t \in WinTexts} \cup ArrOffs}
+
 AllValues == UNION {Pool(k) : k \in Kinds} \cup Universal \cup ForAnyStart \cup {W(x) : x \in NumCore}
                    \cup {W("b"), W("x"), W("abc"), W("2"), W("3"), LongLine, JsDoc, Long3k}
                    \cup {LineCore[j] : j \in 1..Len(LineCore)} \cup {HistLines[j] : j \in 1..Len(HistLines)}
+                   \cup TextVals(WinTexts) \cup WinOffVals
 ValueRow(v) == [id |-> v.id, s |-> v.s, b |-> v.b, r |-> v.r]
+\* the length of every text in bytes, runes and elements, as the model has it: the driver compares with the real strings
+TextRow(t) == [id |-> t.id, nb |-> Meas("byte", t), nr |-> Meas("rune", t), ne |-> Elems(t)]
 
 \* ------------------------------------------------------------------ the enumeration
 GroupsA == {<<"values", "">>} \cup {<<"oat", f>> : f \in FuncNames} \cup {<<"for", "">>} \cup {<<"hist", "">>} \cup {<<"scan", "">>}
 GroupsB == {<<"full", f>> : f \in FuncNames} \cup {<<"cc", f>> : f \in FuncNames} \cup {<<"mut", f>> : f \in FuncNames}
            \cup {<<"mutseed", "">>} \cup {<<"raw", "">>} \cup {<<"ff", f>> : f \in FfNames}
 GroupsC == {<<"math", "">>}
+GroupsD == {<<"ary", f>> : f \in FuncNames} \cup {<<"win", "">>}
 \* every part carries the value table; part "V" is the table alone
 Groups == {<<"values", "">>} \cup
-          (CASE Part = "A" -> GroupsA [] Part = "B" -> GroupsB [] Part = "C" -> GroupsC [] Part = "V" -> {}
-             [] OTHER -> GroupsA \cup GroupsB \cup GroupsC)
+          (CASE Part = "A" -> GroupsA [] Part = "B" -> GroupsB [] Part = "C" -> GroupsC [] Part = "D" -> GroupsD [] Part = "V" -> {}
+             [] OTHER -> GroupsA \cup GroupsB \cup GroupsC \cup GroupsD)
 
 Hdr(lv, g, k) == [lv |-> lv, g |-> g, k |-> k, x |-> <<>>]
 Subs(g) ==
@@ -251,10 +322,12 @@ Subs(g) ==
     [] g[1] = "math" -> {<<"bin", op>> : op \in BinOps} \cup {<<"un", fn>> : fn \in UnFuncs \cup {"-", "!"}} \cup {<<"tok", ix>> : ix \in UNION {TokStrings(j) : j \in 0..(MathTokLen - 1)}}
     [] g[1] = "hist" -> 1..Len(HistTemplates)
     [] g[1] = "scan" -> 1..Len(ScanTemplates)
+    [] g[1] = "ary"  -> WideArities(g[2], Thorough)
+    [] g[1] = "win"  -> WinSubs
     [] OTHER -> {0}
 Cases(g, k) ==
   CASE g[1] = "values" -> {[id |-> "values", g |-> "values", names |-> Sq(FuncNames), ffnames |-> Sq(FfNames), funcfile |-> FuncFile,
-                            values |-> Sq({ValueRow(v) : v \in AllValues})]}
+                            values |-> Sq({ValueRow(v) : v \in AllValues}), texts |-> Sq({TextRow(t) : t \in WinTexts})]}
     [] g[1] = "oat"  -> OatCases(g[2], k)
     [] g[1] = "full" -> FullCases(g[2], k)
     [] g[1] = "cc"   -> CcCases(g[2], k)
@@ -269,6 +342,8 @@ Cases(g, k) ==
     [] g[1] = "ff"   -> FfCases(g[2])
     [] g[1] = "hist" -> {HistScn(k, h) : h \in Hists(HistLen) \ {<<>>}}
     [] g[1] = "scan" -> {ScanScn(k, mt) : mt \in 1..Len(Matchers)} \cup (IF k = 1 THEN {LineSet} ELSE {})
+    [] g[1] = "ary"  -> AryCases(g[2], k)
+    [] g[1] = "win"  -> WinCases(k)
     [] OTHER -> {}
 
 Init == c \in {Hdr(0, g, 0) : g \in Groups}
